@@ -257,12 +257,17 @@ def walkUntypedConstant (c : JV) : Outcome Ty :=
   | .null => .ok nullTy
   | _ => .err "unhandled constant type"
 
+/-- "we only want to deal with string or int enums": the kind of every member is decided by the first value -/
+def enumKindOf : JV → String
+  | .str _ => "string"
+  | _ => "int64"
+
 /-- `walkEnum` -/
 def walkEnum (vals : List JV) : Outcome Ty :=
   match vals with
   | [] => .err "enum with no values"
   | v0 :: _ =>
-    let k := match v0 with | .str _ => "string" | _ => "int64"
+    let k := enumKindOf v0
     .ok (.enum (vals.map fun v => { name := v.fmtV, value := unwrapJSONNumber v, kind := k }) m0)
 
 def constVal (a : JAttrs) : Val :=
